@@ -34,9 +34,10 @@ import (
 
 // vfC10Dbs is the database side of a RedisOutput: TargetDb, TargetDbMap, startDbId.
 type vfC10Dbs struct {
-	tdb int
-	m   map[int]int
-	sdb int
+	tdb   int
+	m     map[int]int
+	sdb   int
+	probe string // SyncDelayTestKey
 }
 
 func (d vfC10Dbs) mapStr() string {
@@ -81,15 +82,39 @@ func vfC10FilterConfig(c vfc10.Cfg, r *vfutil.Rand) config.FilterConfig {
 }
 
 func vfC10OutputDbs(c vfc10.Cfg, r *vfutil.Rand, d vfC10Dbs) *RedisOutput {
+	// dimensions no rule of C10 depends on are drawn too: the kind of target, the delay probe key
+	typ := config.RedisTypeStandalone
+	if r.Chance(1, 3) {
+		typ = config.RedisTypeCluster
+	}
 	ro := NewRedisOutput(RedisOutputConfig{
-		InputName:   "vf-c10",
-		TargetDb:    d.tdb,
-		TargetDbMap: d.m,
-		Redis:       config.RedisConfig{Type: config.RedisTypeStandalone},
-		Filter:      vfC10FilterConfig(c, r),
+		InputName:        "vf-c10",
+		TargetDb:         d.tdb,
+		TargetDbMap:      d.m,
+		Redis:            config.RedisConfig{Type: typ},
+		Filter:           vfC10FilterConfig(c, r),
+		SyncDelayTestKey: d.probe,
+		ReplaceHashTag:   r.Chance(1, 8),
 	})
 	ro.startDbId = d.sdb
 	return ro
+}
+
+// vfC10Plain is the filter of a plain link as its consumers apply it: outFilter, then the
+// bisync control namespace filter (parseAofCommand: FilterCmdKey of one after the other;
+// rdbReplay: FilterKey of either).
+type vfC10Plain struct{ out, ns *filter.RedisKeyFilter }
+
+func (p vfC10Plain) FilterCmd(cmd string) bool  { return p.out.FilterCmd(cmd) }
+func (p vfC10Plain) FilterDb(db int) bool       { return p.out.FilterDb(db) }
+func (p vfC10Plain) FilterSlot(key string) bool { return p.out.FilterSlot(key) }
+func (p vfC10Plain) FilterKey(key string) bool  { return p.out.FilterKey(key) || p.ns.FilterKey(key) }
+func (p vfC10Plain) FilterCmdKey(cmd string, args [][]byte) ([][]byte, bool) {
+	a, rej := p.out.FilterCmdKey(cmd, args)
+	if rej {
+		return a, rej
+	}
+	return p.ns.FilterCmdKey(cmd, a)
 }
 
 func vfC10Output(c vfc10.Cfg, r *vfutil.Rand) *RedisOutput {
@@ -166,85 +191,26 @@ func vfC10Parse(ro *RedisOutput, cmds [][][]byte) (out []string, pan string) {
 	return
 }
 
-// vfC10WantParse evaluates the property on the same command sequence with the
-// oracle's rule predicates: a command reaches the sender iff its database
-// (last SELECT) is not blacklisted, its name is not blacklisted, it is not the
-// sentinel hello, and its keys are accepted (projection for DEL/UNLINK/MSET).
-// One exception (D23): transaction brackets are handed over inside a listed
-// database too (a MULTI while no forwarded transaction is open, an EXEC while
-// one is), carrying the offset of the last command handed over; the sender
-// absorbs them, no data command of the listed database goes with them. SELECTs of
-// unlisted databases arrive mapped (TargetDb / TargetDbMap) and only when the
-// target database changes; a run resumed in database startDbId > 0 begins with
-// that select.
-func vfC10WantParse(eff vfc10.Cfg, d vfC10Dbs, cmds [][][]byte) (out []string) {
-	bypass, txnOpen, cur, last := false, false, -1, 0
-	ends := vfC10Ends(cmds)
-	if d.sdb > 0 {
-		out = append(out, fmt.Sprintf("S%d#0", d.sdb))
-	}
-	fwd := func(name string, args [][]byte, off int) {
-		out = append(out, fmt.Sprintf("F@%d#%d:%s", cur, off, vfc10.ArgList(append([][]byte{[]byte(name)}, args...))))
-		if name == "multi" {
-			txnOpen = true
-		} else if name == "exec" {
-			txnOpen = false
-		}
-		last = off
-	}
-	for i, c := range cmds {
-		name, argv := vfC10Lower(string(c[0])), c[1:]
-		if name == "select" {
-			if len(argv) != 1 {
-				return append(out, "E")
-			}
-			n, err := strconv.Atoi(string(argv[0]))
-			if err != nil {
-				return append(out, "E")
-			}
-			bypass = vfc10.WantFilterDb(eff, n)
-			if bypass {
-				continue
-			}
-			na, rej, _ := vfc10.WantFilterCmdKey(eff, name, argv)
-			if rej {
-				continue
-			}
-			if n >= 0 {
-				if t := d.target(n); t != cur {
-					cur = t
-					out = append(out, fmt.Sprintf("S%d#%d", t, ends[i]))
-					last = ends[i]
-				}
-				continue
-			}
-			// a negative index is not a database switch: passed on like any command
-			fwd(name, na, ends[i])
+// vfC10Sent extracts the filter decision from what the parser handed to the
+// sender: the data commands (name and arguments) in order. Offsets, database
+// selection / elision, PING and transaction brackets are the business of the
+// model diff and of C01/C02/C09, not of this monitor.
+func vfC10Sent(tokens []string) (out []string) {
+	for _, tk := range tokens {
+		if !strings.HasPrefix(tk, "F@") {
 			continue
 		}
-		// in a listed database only transaction brackets are handed over: a MULTI while no
-		// forwarded transaction is open, an EXEC while one is (with the last offset handed over)
-		closes := bypass && ((name == "multi" && !txnOpen) || (name == "exec" && txnOpen))
-		if name != "ping" {
-			if vfc10.WantFilterCmd(eff, name) {
-				continue
-			}
-			if name == "publish" && len(argv) > 0 && vfC10Lower(string(argv[0])) == "__sentinel__:hello" {
-				continue
-			}
+		i := strings.Index(tk, ":")
+		cmd := tk[i+1:]
+		name := cmd
+		if j := strings.Index(cmd, ","); j >= 0 {
+			name = cmd[:j]
 		}
-		if bypass && !closes {
+		switch string(vfutil.UnHex(name)) {
+		case "ping", "multi", "exec", "select":
 			continue
 		}
-		na, rej, _ := vfc10.WantFilterCmdKey(eff, name, argv)
-		if rej {
-			continue
-		}
-		off := ends[i]
-		if closes {
-			off = last
-		}
-		fwd(name, na, off)
+		out = append(out, cmd)
 	}
 	return
 }
@@ -253,13 +219,17 @@ func vfC10WantParse(eff vfc10.Cfg, d vfC10Dbs, cmds [][][]byte) (out []string) {
 
 // vfC10BisyncParse runs the REAL bisync parser (syncer/bisync.go
 // parseAofReplayUnits, standalone mode) and renders its units.
-func vfC10BisyncParse(c vfc10.Cfg, r *vfutil.Rand, cmds [][][]byte) (out []string, flat [][][]byte, pan string) {
+func vfC10BisyncParse(c vfc10.Cfg, r *vfutil.Rand, cmds [][][]byte, cluster bool) (out []string, flat [][][]byte, pan string) {
+	typ := config.RedisTypeStandalone
+	if cluster {
+		typ = config.RedisTypeCluster
+	}
 	ro := NewRedisOutput(RedisOutputConfig{
 		InputName:     "vf-c10",
 		BisyncEnabled: true,
 		BatchCmdCount: 8,
 		TargetDb:      -1,
-		Redis:         config.RedisConfig{Type: config.RedisTypeStandalone},
+		Redis:         config.RedisConfig{Type: typ},
 		Filter:        vfC10FilterConfig(c, r),
 	})
 	// commands the static table does not resolve fall back to COMMAND GETKEYS on the target: no target here
@@ -310,11 +280,14 @@ func vfC10Allowed(eff vfc10.Cfg, cmds [][][]byte) (out [][][]byte) {
 	for _, c := range cmds {
 		name, argv := vfC10Lower(string(c[0])), c[1:]
 		if name == "select" {
-			if len(argv) == 1 {
-				if n, err := strconv.Atoi(string(argv[0])); err == nil {
-					bypass = vfc10.WantFilterDb(eff, n)
-				}
+			if len(argv) != 1 {
+				return
 			}
+			n, err := strconv.Atoi(string(argv[0]))
+			if err != nil {
+				return // the parser stops at a malformed SELECT
+			}
+			bypass = vfc10.WantFilterDb(eff, n)
 			continue
 		}
 		if name == "ping" || name == "multi" || name == "exec" {
@@ -333,6 +306,17 @@ func vfC10Allowed(eff vfc10.Cfg, cmds [][][]byte) (out [][][]byte) {
 		out = append(out, append([][]byte{[]byte(name)}, na...))
 	}
 	return
+}
+
+// vfC10Judgeable: the stream holds no MSET with a dangling key (no source propagates one; the
+// property does not define its projection, the model diff covers it)
+func vfC10Judgeable(cmds [][][]byte) bool {
+	for _, c := range cmds {
+		if vfC10Lower(string(c[0])) == "mset" && len(c)%2 == 0 {
+			return false
+		}
+	}
+	return true
 }
 
 func vfC10SameCmd(a, b [][]byte) bool {
@@ -599,9 +583,20 @@ func TestVerifC10(t *testing.T) {
 	e := &vfc10.Env{
 		S:       s,
 		Mode:    "O",
-		Make:    func(c vfc10.Cfg) vfc10.Filter { return vfC10Output(c, r).outFilter },
+		Make: func(c vfc10.Cfg) vfc10.Filter {
+			ro := vfC10Output(c, r)
+			return vfC10Plain{ro.outFilter, ro.bisyncNsFilter}
+		},
 		ExtraCB: append([]string{}, filter.NoRouteCmds...),
-		ExtraPB: []string{config.CheckpointKey, config.NamespacePrefixKey},
+		// the documented bookkeeping namespaces (NOT read from the wiring under test)
+		ExtraPB: append([]string{}, vfc10.BookkeepingNamespaces...),
+	}
+	// a bisync link's filter does not list the bisync namespace (its parser needs the markers
+	// and drops control traffic itself); its snapshot loop rejects the namespace explicitly
+	effB := func(c vfc10.Cfg) vfc10.Cfg {
+		x := e.Eff(c)
+		x.PB = append([]string{"redis-gunyu-checkpoint", "/redis-gunyu"}, c.PB...)
+		return x
 	}
 	dot := func(l []string) string {
 		if len(l) == 0 {
@@ -621,6 +616,9 @@ func TestVerifC10(t *testing.T) {
 			toks[i] = strconv.Itoa(ends[i]) + "/" + vfc10.ArgList(cm)
 		}
 		line := fmt.Sprintf("c10 parse O %s %d %s %d %s", c.Fields(), d.tdb, d.mapStr(), d.sdb, strings.Join(toks, " "))
+		if d.probe != "" {
+			s.Count("parse_probe_cfg")
+		}
 		s.Op(line, got)
 		if pan != "" {
 			s.Count("parse_panic")
@@ -628,7 +626,6 @@ func TestVerifC10(t *testing.T) {
 				map[string]interface{}{"mode": "O", "cfg": c.Fields(), "op": line, "panic": pan})
 			return
 		}
-		want := dot(vfC10WantParse(e.Eff(c), d, cmds))
 		s.Count("parse_" + src)
 		s.Add("parse_cmds", len(cmds))
 		if d.sdb > 0 {
@@ -637,17 +634,29 @@ func TestVerifC10(t *testing.T) {
 		if d.tdb != -1 || len(d.m) > 0 {
 			s.Count("parse_mapped")
 		}
-		if got != want {
-			s.Violate("parseAofCommand", fmt.Sprintf("what reaches the sender differs from the configured rules: got %q want %q", got, want),
-				map[string]interface{}{"mode": "O", "cfg": c.Fields(), "op": line, "got": got, "want": want})
+		if d.probe != "" {
+			s.Count("parse_probe")
+		}
+		// the property: exactly the commands the rules accept reach the sender, with the arguments
+		// the key rules leave (offsets / selects / ping / brackets: model diff, C01, C09)
+		sent := vfC10Sent(gotL)
+		var allowed []string
+		for _, a := range vfC10Allowed(e.Eff(c), cmds) {
+			allowed = append(allowed, vfc10.ArgList(a))
+		}
+		if !vfC10Judgeable(cmds) {
+			s.Count("parse_malformed_mset")
+		} else if strings.Join(sent, " ") != strings.Join(allowed, " ") {
+			s.Violate("parseAofCommand", fmt.Sprintf("commands handed to the sender %q differ from what the configured rules accept %q", sent, allowed),
+				map[string]interface{}{"mode": "O", "cfg": c.Fields(), "op": line, "sent": strings.Join(sent, " "), "allowed": strings.Join(allowed, " ")})
 		} else if got != "." {
 			s.Distinct("p:" + line)
 		}
 	}
 
 	// ---- bisync parser (parseAofReplayUnits)
-	bparseOp := func(c vfc10.Cfg, cmds [][][]byte, src string) {
-		gotL, flat, pan := vfC10BisyncParse(c, r, cmds)
+	bparseOp := func(c vfc10.Cfg, cmds [][][]byte, cluster bool, src string) {
+		gotL, flat, pan := vfC10BisyncParse(c, r, cmds, cluster)
 		toks := make([]string, len(cmds))
 		special := false
 		for i, cm := range cmds {
@@ -662,18 +671,22 @@ func TestVerifC10(t *testing.T) {
 				}
 			}
 		}
-		line := "c10 bparse O " + c.Fields() + " " + strings.Join(toks, " ")
+		op := "bparse"
+		if cluster {
+			op = "bparsec"
+		}
+		line := "c10 " + op + " B " + c.Fields() + " " + strings.Join(toks, " ")
 		got := dot(gotL)
 		s.Op(line, got)
-		s.Count("bparse_" + src)
+		s.Count(op + "_" + src)
 		if pan != "" {
 			s.Violate("FilterCmdKey-panic", "parseAofReplayUnits panics: "+pan,
 				map[string]interface{}{"mode": "O", "cfg": c.Fields(), "op": line, "panic": pan})
 			return
 		}
-		allowed := vfC10Allowed(e.Eff(c), cmds)
+		allowed := vfC10Allowed(effB(c), cmds)
 		failed := len(gotL) > 0 && (gotL[len(gotL)-1] == "E" || gotL[len(gotL)-1] == "eof-in-txn")
-		bad := !vfC10Subseq(flat, allowed)
+		bad := !vfC10Subseq(flat, allowed) && vfC10Judgeable(cmds)
 		if !bad && !special && !failed && len(flat) != len(allowed) {
 			bad = true // nothing bisync-specific in the stream: exactly the allowed commands
 		}
@@ -703,7 +716,11 @@ func TestVerifC10(t *testing.T) {
 				continue
 			}
 			for i, en := range ents {
-				line := fmt.Sprintf("c10 %s O %s %d %s", op, c.Fields(), en.db, vfutil.Hex(en.key))
+				mode := "O"
+				if bis {
+					mode = "B"
+				}
+				line := fmt.Sprintf("c10 %s %s %s %d %s", op, mode, c.Fields(), en.db, vfutil.Hex(en.key))
 				g := "drop"
 				if kept[i] {
 					g = "keep"
@@ -726,7 +743,7 @@ func TestVerifC10(t *testing.T) {
 			continue
 		}
 		t := strings.Fields(l)
-		if len(t) < 10 || t[0] != "c10" || t[2] != "O" {
+		if len(t) < 10 || t[0] != "c10" || (t[2] != "O" && t[2] != "B") {
 			continue
 		}
 		c, err := vfc10.ParseCfg(t[3:10])
@@ -754,8 +771,10 @@ func TestVerifC10(t *testing.T) {
 			}
 			parseOp(c, d, vfC10ParseCmds(rest), "corpus")
 		case "bparse":
-			bparseOp(c, vfC10ParseCmds(rest), "corpus")
-		case "rdb", "brdb":
+			bparseOp(c, vfC10ParseCmds(rest), false, "corpus")
+		case "bparsec":
+			bparseOp(c, vfC10ParseCmds(rest), true, "corpus")
+		case "rdb": // runs both snapshot loops (a "brdb" line is the same entry)
 			if len(rest) == 2 {
 				db, _ := strconv.Atoi(rest[0])
 				rdbOps(c, []vfC10Ent{{db, vfutil.UnHex(rest[1])}}, "corpus")
@@ -773,10 +792,22 @@ func TestVerifC10(t *testing.T) {
 			if j >= 3 {
 				d = vfC10GenDbs(r, c)
 			}
-			parseOp(c, d, vfC10GenStream(r, eff), "gen")
+			st := vfC10GenStream(r, eff)
+			if j == 5 || (j == 2 && r.Bool()) {
+				// the sync-delay probe key is an ordinary key for the rules
+				d.probe = string(vfc10.GenKey(r, eff))
+				if d.probe != "" {
+					for k := 0; k < 2; k++ {
+						at := r.Intn(len(st) + 1)
+						pc := [][]byte{[]byte(vfutil.Pick(r, []string{"set", "SET"})), []byte(d.probe), []byte("host_" + strconv.Itoa(r.Intn(1000000)))}
+						st = append(st[:at], append([][][]byte{pc}, st[at:]...)...)
+					}
+				}
+			}
+			parseOp(c, d, st, "gen")
 		}
 		for j := 0; j < 3; j++ {
-			bparseOp(c, vfC10GenBisyncStream(r, eff), "gen")
+			bparseOp(c, vfC10GenBisyncStream(r, eff), j == 2, "gen")
 		}
 		if i%4 == 0 {
 			seen := map[string]bool{}
